@@ -130,7 +130,7 @@ func runC14(p *Prog, r *Report) {
 				// the clamp comparison lies on every path from the growth to the next use
 				var cmp ssa.Instruction
 				for _, b := range dl.fn.Blocks {
-					if iff, ok := b.Instrs[len(b.Instrs)-1].(*ssa.If); ok && NormAtom(iff.Cond, true) == "recv.reconnTime > recv.reconnMaxTime" {
+					if iff, ok := b.Instrs[len(b.Instrs)-1].(*ssa.If); ok && litEq(NormAtom(iff.Cond, true), "recv.reconnTime > recv.reconnMaxTime") {
 						cmp = iff
 					}
 				}
@@ -148,7 +148,7 @@ func runC14(p *Prog, r *Report) {
 				ea := edgeAtomsOf(e.In.Block())
 				hasNR, only := hasAtom(e.Guard, "!φredial"), true
 				for _, a := range ea {
-					if a == "!φredial" {
+					if litEq(a, "!φredial") {
 						hasNR = true
 					} else if a != "recv.closed" {
 						only = false
